@@ -27,6 +27,8 @@ type OpRec struct {
 	Proc      int
 	Part      string
 	T0, T1    time.Duration
+	Skew      time.Duration // clock offset of the acting process
+	offNode   func()
 	Calls     int // seam calls made inside this operation (metastore, KMS, AEAD, secret factory)
 	MSCalls   int
 	KMSCalls  int
